@@ -94,7 +94,7 @@ package xsync
 //@   serves C13 C14
 //@   requires m != nil
 //@   effect blocking nolocks
-//@   modifies allmem, allghost
+//@   modifies allmem, view(m), tview, slotb, sloti, tbl, ridx, pos, clen
 //@   ensures assumed private keeps: mapRI(m) && view(m) == old(view(m)) && tab(m) == old(tab(m))
 //@   loop for.loop: invariant param: true
 //@   ensures {C13} post.released: nheld() == 0
@@ -103,7 +103,7 @@ package xsync
 //@   serves C13 C14
 //@   requires m != nil && knownTable != nil && tblShape(knownTable) && tblShape(tab(m)) && pow2(m.minTableLen) && 0 <= hint && hint <= 2
 //@   effect blocking nolocks
-//@   modifies allmem, allghost
+//@   modifies allmem, view(m), tview, slotb, sloti, tbl, ridx, pos, clen
 //@   loop for.loop: invariant shape: newTable != nil && tblShape(newTable) && tblShape(table) && table != nil && 0 <= i
 //@   ensures assumed private keeps: hint != 2 ==> mapRI(m) && view(m) == old(view(m))
 //@   ensures {C13} monitor.no-lost-wakeup: monitorOK()
@@ -161,7 +161,7 @@ package xsync
 //@   let called = !(loadIfExists && present(o))
 //@   let t0 = old(tab(m))
 //@   loop compute_attempt: invariant {C05} noinvocation: ncb(valueFn) == 0 && nheld() == 0
-//@   loop compute_attempt: invariant {C11,C03} unchanged: mapRI(m) && view(m) == old(view(m)) && tab(m) == t0 && called
+//@   loop compute_attempt: invariant {C11,C03} unchanged: mapInv(m) && mapRI(m) && view(m) == old(view(m)) && tab(m) == t0 && called
 //@   loop for.body: invariant cursor: b != nil && rootb != nil && holds(addr(rootb.topHashMutex)) && table == t0 && ncb(valueFn) == 0
 //@   loop for.body: invariant {C11,C03} walk: own(t0, b) && ridx[b] == idxOf(t0, key) && rootb == root(t0, idxOf(t0, key)) && hash == hashString(key, t0.seed) && (present(o) ==> pos[slotb[t0][key]] >= pos[b])
 //@   loop for.body: invariant {C11,C03} empty: emptyb != nil ==> own(t0, emptyb) && ridx[emptyb] == idxOf(t0, key) && 0 <= emptyidx && emptyidx < 3 && emptyb.keys[emptyidx] == nil
